@@ -23,7 +23,38 @@ func c05Check(c *hist.Case, r *evid.Rec) []evid.Disc {
 	retained := map[string]int{} // topic -> tag of the latest retained publish
 	overwrites := map[string]bool{}
 	var ds []evid.Disc
+	// a will is a publish by the broker: it counts from the step in which some connection first received it (the
+	// histories with wills keep an observer subscribed to everything)
+	willAt := map[int][]int{}
+	seenWill := map[int]bool{}
 	for _, s := range run.Steps {
+		for _, o := range s.Obs {
+			if o.P.Type != refmqtt.PUBLISH {
+				continue
+			}
+			tag := hist.TagOf(o.P.Payload)
+			if ti := run.Tags[tag]; ti != nil && ti.Will && !seenWill[tag] {
+				seenWill[tag] = true
+				willAt[s.I] = append(willAt[s.I], tag)
+			}
+		}
+	}
+	for _, s := range run.Steps {
+		for _, tag := range willAt[s.I] {
+			ti := run.Tags[tag]
+			r.Label("will-published/retain=" + fmt.Sprint(ti.Retain))
+			if s.A.Kind == "subscribe" || s.A.Kind == "publish" {
+				ds = append(ds, evid.D("C05-will-published-in-unexpected-step", "step %d (%s): will m%d was first seen in a step that cannot release a will", s.I, s.A.String(), tag))
+			}
+			if !ti.Retain || c.Cfg.RetainUnavailable {
+				continue
+			}
+			if _, had := retained[ti.Topic]; had {
+				overwrites[ti.Topic] = true
+			}
+			retained[ti.Topic] = tag
+			overwrites[ti.Topic] = true // a will route counts as non-trivial for the replay that follows
+		}
 		switch {
 		case s.A.Kind == "publish" && !s.Skipped && s.Tag > 0 && s.A.Retransmit == 0:
 			ti := run.Tags[s.Tag]
@@ -143,8 +174,68 @@ func c05Check(c *hist.Case, r *evid.Rec) []evid.Disc {
 	return withTranscript(ds, run)
 }
 
+// c05GenWills: the retained store is also written by wills (immediate ones at the end of a connection, delayed ones
+// by the housekeeping or a clean-start reconnect) and read by the retained-expiry housekeeping. Three clients with
+// retained wills on the publish topics, an observer subscribed to everything (so that the step in which a will is
+// published is seen on the wire), retained publishes on the same topics, drops, reconnects, ticks, subscriptions.
+func c05GenWills(rt *rapid.T) *hist.Case {
+	c := &hist.Case{}
+	topics := []string{"a", "a/b", "b"}
+	filters := []string{"a", "a/b", "a/#", "#", "+", "a/+", "+/#", "b"}
+	versions := []byte{pick(rt, "v0", []byte{4, 5, 5}), pick(rt, "v1", []byte{5, 5, 4}), 5}
+	connect := func(cl int) hist.Action {
+		a := hist.Action{Kind: "connect", Client: cl, Version: versions[cl], Clean: rapid.IntRange(0, 2).Draw(rt, "clean") != 0, AutoAck: true}
+		if rapid.IntRange(0, 4).Draw(rt, "will") != 0 {
+			a.Will = &hist.WillSpec{Topic: pick(rt, "willtopic", topics), QoS: byte(rapid.IntRange(0, 1).Draw(rt, "wq")), Retain: rapid.IntRange(0, 4).Draw(rt, "wr") != 0}
+			if versions[cl] == 5 && rapid.Bool().Draw(rt, "delayed") {
+				d, e := uint32(30), uint32(100)
+				a.Will.Delay, a.Expiry = &d, &e
+			}
+		}
+		if versions[cl] == 5 && !a.Clean && a.Expiry == nil {
+			e := uint32(100)
+			a.Expiry = &e
+		}
+		return a
+	}
+	c.Actions = append(c.Actions, hist.Action{Kind: "connect", Client: 3, Version: 4, Clean: true, AutoAck: true},
+		hist.Action{Kind: "subscribe", Client: 3, Filters: []refmqtt.Filter{{Filter: "#", QoS: 0}}})
+	for cl := 0; cl < 3; cl++ {
+		c.Actions = append(c.Actions, connect(cl))
+	}
+	action := rapid.Custom(func(rt *rapid.T) hist.Action {
+		cl := rapid.IntRange(0, 2).Draw(rt, "client")
+		switch rapid.IntRange(0, 13).Draw(rt, "kind") {
+		case 0, 1, 2:
+			f := refmqtt.Filter{Filter: pick(rt, "filter", filters), QoS: byte(rapid.IntRange(0, 1).Draw(rt, "sq"))}
+			return hist.Action{Kind: "subscribe", Client: cl, Filters: []refmqtt.Filter{f}}
+		case 3, 4:
+			return hist.Action{Kind: "publish", Client: cl, Topic: pick(rt, "topic", topics), QoS: byte(rapid.IntRange(0, 1).Draw(rt, "pq")), Retain: true, Empty: rapid.IntRange(0, 3).Draw(rt, "empty") == 0}
+		case 5, 6, 7:
+			return hist.Action{Kind: "drop", Client: cl}
+		case 8:
+			return hist.Action{Kind: "disconnect", Client: cl}
+		case 9, 10:
+			return connect(cl)
+		case 11:
+			return hist.Action{Kind: "tick", Tick: "wills", Offset: pick(rt, "woff", []int64{0, 40, 40, 1000})}
+		case 12:
+			return hist.Action{Kind: "tick", Tick: "retained", Offset: pick(rt, "roff", []int64{0, 50, 1000, 20000})}
+		default:
+			return hist.Action{Kind: "unsubscribe", Client: cl, Filters: []refmqtt.Filter{{Filter: pick(rt, "filter", filters)}}}
+		}
+	})
+	c.Actions = append(c.Actions, rapid.SliceOfN(action, 4, 24).Draw(rt, "actions")...)
+	// at the end: every will that is still parked is released, the retained-expiry housekeeping runs once more (nothing
+	// here carries a message expiry and the server maximum is a day), and a fresh subscriber reads the whole store
+	c.Actions = append(c.Actions, hist.Action{Kind: "tick", Tick: "wills", Offset: 2000}, hist.Action{Kind: "tick", Tick: "retained", Offset: 20000},
+		hist.Action{Kind: "connect", Client: 2, Version: 5, Clean: true, AutoAck: true},
+		hist.Action{Kind: "subscribe", Client: 2, Filters: []refmqtt.Filter{{Filter: "#", QoS: 1}}})
+	return c
+}
+
 func TestC05(t *testing.T) {
-	r := evid.New("C05", "rapid: histories over 4 topics with retained / non-retained / empty-payload publishes interleaved with subscribe and re-subscribe (same filter, Retain Handling 0/1/2), shared filters, unsubscribe, reconnects; server retain available on/off; oracle: after each acknowledged SUBSCRIBE the retained PUBLISH packets received (by tag, retain flag set) equal the model's matching entries iff RH=0, or RH=1 and the subscription is new; none for RH=2, existing RH=1, shared filters or retain unavailable; non-trivial = a replayed topic that was overwritten or deleted earlier; distinct by (history, step, filter, topic, tag, RH)")
+	r := evid.New("C05", "rapid: histories over 4 topics with retained / non-retained / empty-payload publishes interleaved with subscribe and re-subscribe (same filter, Retain Handling 0/1/2), shared filters, unsubscribe, reconnects; server retain available on/off; one case in four instead has retained wills (immediate and delayed, v3.1.1/v5) on the publish topics, drops, reconnects, will and retained-expiry housekeeping ticks and an observer that shows when each will was published; oracle: after each acknowledged SUBSCRIBE the retained PUBLISH packets received (by tag, retain flag set) equal the model's matching entries iff RH=0, or RH=1 and the subscription is new; none for RH=2, existing RH=1, shared filters or retain unavailable; non-trivial = a replayed topic that was overwritten or deleted earlier, or written by a will; distinct by (history, step, filter, topic, tag, RH)")
 	defer r.Finish(t)
 	if evid.ReplayMode() {
 		evid.Replay(t, r, replayPath(), c05Check)
@@ -158,6 +249,11 @@ func TestC05(t *testing.T) {
 	g.InitAll, g.RetainBias = true, 3
 	g.MinActions = 8
 	evid.Run(t, r, func(rt *rapid.T) *hist.Case {
+		if rapid.IntRange(0, 3).Draw(rt, "wills") == 0 {
+			c := c05GenWills(rt)
+			r.Sample(c.Summary())
+			return c
+		}
 		c := g.Draw(rt)
 		c.Cfg.RetainUnavailable = rapid.IntRange(0, 4).Draw(rt, "unavailable") == 0
 		r.Sample(append([]string{fmt.Sprintf("retain unavailable=%v", c.Cfg.RetainUnavailable)}, c.Summary()...))
